@@ -28,6 +28,11 @@ def shards(tier, seed):
     out = progshards.shards(tier, seed, PROPERTY)
     for j in range(4):
         out.append({'name': f'slow{j}', 'what': 'slow', 'part': j})
+    for j in range(2):
+        # pipelines below a pool prefetch under the controlled scheduler, every
+        # line of core.py a switch point (machinery of C04)
+        out.append({'name': f'schedpipe{j}', 'what': 'schedpipe', 'mod': 2, 'rem': j,
+                    'rnd_runs': 16 if tier == 'quick' else 200})
     return out
 
 
@@ -81,6 +86,9 @@ def nontrivial(prog, status, m, o):
 def run_shard(spec, res):
     if spec['what'] == 'slow':
         return run_slow(spec, res)
+    if spec['what'] == 'schedpipe':
+        from . import c04
+        return c04.run_schedpipe(spec, res)
     progshards.run(spec, res, PROPERTY, ASPECTS, progengine.judge_c01, nontrivial)
 
 
@@ -96,6 +104,10 @@ def replay(case, res):
     from ..common import import_lazy_dataset
     ld = import_lazy_dataset()
     prog = fix_prog(case['prog'])
+    if 'schedule' in case:
+        from . import c04
+        return c04.run_schedpipe({'mod': 1, 'rem': 0, 'rnd_runs': 40, 'seed': 0,
+                                  'name': 'replay'}, res)
     if 'consumer_stalls_after' in case:
         return run_slow({'part': 0}, res) or run_slow({'part': 1}, res) or \
             run_slow({'part': 2}, res) or run_slow({'part': 3}, res)
